@@ -60,12 +60,25 @@ impl<C: Config, Q: Query> Snapshot<C, Q> {
             _ => false,
         };
 
-        // the callees read by the previous execution: only those are covered
-        // by the transitive firewall repair of the root of this request
+        // the callees read by the previous execution, with the transitive
+        // firewall callees accounted for each: only those are covered by the
+        // transitive firewall repair of the root of this request
         let previous_callees = std::sync::Arc::new(
-            self.forward_edge_order().await.map_or_else(
-                fxhash::FxHashSet::default,
-                |order| order.iter_all_callees().collect(),
+            self.forward_edge_observation().await.map_or_else(
+                fxhash::FxHashMap::default,
+                |observations| {
+                    observations
+                        .0
+                        .iter()
+                        .map(|(callee, observation)| {
+                            (
+                                *callee,
+                                observation
+                                    .seen_transitive_firewall_callees_fingerprint,
+                            )
+                        })
+                        .collect()
+                },
             ),
         );
 
